@@ -1278,6 +1278,24 @@ pub fn generate(ctx: &Ctx, prop: &str, rng: &mut Rng64, thorough: bool, index: u
                 }
                 return case;
             }
+            // the shipped default is 32 workers from the fourth iteration on: a few runs stop an
+            // unlimited search of an ordinary position with all 32 at work
+            if heavy && kind >= 70 && rng.chance(90) {
+                case.dims = (8, 1024);
+                case.node_cap = 6_000_000;
+                case.searches.push(SearchSpec {
+                    fen: pos.fen(),
+                    depth: None,
+                    seed: pick_seed(rng),
+                    entry: if rng.chance(500) { Entry::Public } else { Entry::Sync { workers: None } },
+                    rayon_threads: 32,
+                    fresh: false,
+                    history: vec![],
+                    faults: vec![Fault { kind: FaultKind::StopAtGlobalNode, at: 60_000 + rng.below(500_000), times: 1 }],
+                });
+                case.searches.push(SearchSpec { fen: pos.fen(), depth: Some(2), seed: pick_seed(rng), entry: Entry::Sync { workers: Some(1) }, rayon_threads: 1, fresh: false, history: vec![], faults: vec![] });
+                return case;
+            }
             let first_fresh = if endgame_heavy { rng.chance(400) } else { rng.chance(700) };
             if !first_fresh {
                 // inherited artifact: one small earlier search
@@ -1339,6 +1357,17 @@ pub fn generate(ctx: &Ctx, prop: &str, rng: &mut Rng64, thorough: bool, index: u
                     None => (corpus::tb_win_in(rng, &ctx.tb, 3), Some(3)),
                 }
             };
+            // the half-move clock is part of the position: a mate delivered by the very move
+            // that completes the hundredth half-move is still a mate (no clock beyond that)
+            let mut pos = pos;
+            if let Some(n) = n {
+                match rng.below(12) {
+                    0 => pos.halfmove = 100 - n.min(100),
+                    1 => pos.halfmove = rng.below((101 - n.min(100)) as u64) as u32,
+                    _ => {}
+                }
+                pos.fullmove = pos.fullmove.max(pos.halfmove / 2 + 1);
+            }
             let mut depth = match n {
                 Some(n) => n + rng.below(3) as u32,
                 None => 3 + rng.below(3) as u32,
